@@ -375,9 +375,35 @@ def rule_rollback(chk):
                    key="rollback|" + inst)
 
 
+def rule_free_escape(chk):
+    from . import freeescape
+    R = "R-FREE-ESCAPE"
+    chk.rule(R, "in every function that frees a block (free / Arena_free) no heap lvalue still holds the freed pointer at any return: "
+                "pointer equalities are must-facts, dangling lvalues may-facts, an assignment to the lvalue clears it")
+    sites = [("asmjit/support/arena.cpp", r"asmjit::Arena::|asmjit::Arena_"), ("asmjit/core/codeholder.cpp", r"asmjit::Section_|asmjit::CodeHolder"),
+             ("asmjit/core/jitallocator.cpp", r"asmjit::JitAllocator"), ("asmjit/core/string.cpp", r"asmjit::String::"), ("asmjit/core/virtmem.cpp", r"asmjit::VirtMem::")]
+    n = 0
+    for unit, rex in sites:
+        f = chk.facts(unit, funcs=rex)
+        for fn in cfg.load_functions(f):
+            if not any(True for i, x in fn.calls(lambda x: x.get("cn") in freeescape.FREE)):
+                continue
+            n += 1
+            rep = freeescape.analyse(fn)
+            sn = short(fn.name)
+            if not rep:
+                chk.ob(R, sn, True, loc="%s:%d" % (unit, fn.line))
+            for (lv, fr, rt) in rep:
+                chk.ob(R, "%s|%s" % (sn, lv), False, loc=fn.loc(fr),
+                       detail="`%s` still holds the block freed at line %d when %s returns (line %d): a later walk of the list uses or frees it again" % (
+                           lv, fn.line_of(fr), sn, fn.line_of(rt)), key="freeescape|%s|%s" % (sn, lv))
+    chk.floor(R + ":functions", n, 8)
+
+
 def run(chk):
     units = [u for u in core.library_units() if "/ujit/" not in u]
     rule_rollback(chk)
+    rule_free_escape(chk)
     rule_null_tested(chk, units)
     rule_reserve_then_append(chk, units)
     rule_call_order(chk)
